@@ -22,6 +22,8 @@ structure Quirks where
   repeatZero : Bool := false
   /-- `gates.I` is listed as classical but the decompiler raises on it -/
   identityGateRaises : Bool := false
+  /-- `MCtrl(X(), n)` is not an instance of any `ZB_GATES` class: it ends a decompiler section -/
+  mctrlXSplits : Bool := false
   /-- `convert_to_dimacs` iterates a single clause as unit clauses -/
   dimacsSingleClause : Bool := false
   /-- `to_bqm`: `_ret = <symbol>` takes the `AndConst` branch -/
@@ -38,6 +40,7 @@ def Quirks.ofList (l : List String) : Quirks :=
     removeIdEmptyResult := l.contains "removeIdEmptyResult"
     repeatZero := l.contains "repeatZero"
     identityGateRaises := l.contains "identityGateRaises"
+    mctrlXSplits := l.contains "mctrlXSplits"
     dimacsSingleClause := l.contains "dimacsSingleClause"
     retSymbolAndConst := l.contains "retSymbolAndConst" }
 
